@@ -402,7 +402,7 @@ func (a *App) Run(args []string) error {
 					return err
 				}
 
-				var out io.Writer = os.Stdout
+				var out io.Writer = appState.Out
 
 				if fileFlag != nil && *fileFlag != "" {
 					f, err := os.Create(*fileFlag)
